@@ -782,7 +782,11 @@ def r_chunk(F, R, cat=None):
                     detail="the cursor advances by %s, which neither mentions the item's end %s nor is bounded by a "
                            "dominating comparison against the remaining bits: a short item lying inside one byte is "
                            "read together with the bits that follow it" % (show(addend), show(end)))
-    R.floor("R-CHUNK", "cursor advances in BitIterator::next", n_sites, 1)
+    if bodies and n_sites == 0:
+        # the cursor is not advanced by a plain `cursor += n` store (a position newtype with its
+        # own `+=`, a cursor rebuilt as a whole): the anchor of this rule is absent, not violated
+        R.undecided_site("R-CHUNK", bodies[0].label(), "no `cursor += n` store recognised in BitIterator::next: that the advance "
+                         "stays within the item is not decided")
 
 
 def r_acc_width(F, R):
